@@ -204,8 +204,8 @@ var ruleEsc = &Rule{
 					if !ok {
 						continue
 					}
-					if calleeQualified(&c.Call) == "strings.WriteRune" && len(c.Call.Args) == 2 {
-						if k, ok := constInt(c.Call.Args[1]); ok {
+					if wv, ok := runeWritten(c, 0); ok {
+						if k, ok := constInt(wv); ok {
 							m[*letter] = k
 						}
 					}
@@ -321,6 +321,39 @@ var ruleEsc = &Rule{
 		}
 		return out
 	},
+}
+
+// runeWritten: the call writes a rune into a strings.Builder, directly
+// (WriteRune) or through a helper of package parser that forwards one of its
+// rune parameters to such a write on its only path; returns the rune value.
+func runeWritten(c *ssa.Call, depth int) (ssa.Value, bool) {
+	if calleeQualified(&c.Call) == "strings.WriteRune" && len(c.Call.Args) == 2 {
+		return c.Call.Args[1], true
+	}
+	g := c.Call.StaticCallee()
+	if g == nil || depth > 2 || fnPkgPath(g) != pkgParser || g.Blocks == nil || len(g.Blocks) != 1 {
+		return nil, false
+	}
+	for _, ins := range g.Blocks[0].Instrs {
+		ic, ok := ins.(*ssa.Call)
+		if !ok {
+			continue
+		}
+		wv, ok := runeWritten(ic, depth+1)
+		if !ok {
+			continue
+		}
+		q, ok := wv.(*ssa.Parameter)
+		if !ok {
+			return nil, false
+		}
+		for i, gp := range g.Params {
+			if gp == q && i < len(c.Call.Args) {
+				return c.Call.Args[i], true
+			}
+		}
+	}
+	return nil, false
 }
 
 // --- R-PAREN -------------------------------------------------------------------------------------
@@ -524,7 +557,11 @@ var ruleMarshal = &Rule{
 		} else {
 			out.viol("Path.String is the AST's canonical text", p.pos(str.Pos()), fnName(str), "does not return AST.String()")
 		}
-		viaString := func(v ssa.Value, depth int) bool {
+		// viaString: the value is String() of the receiver, seen through
+		// conversions or through a helper method of *Path that is handed the
+		// same receiver and returns nothing but that
+		var viaString func(v ssa.Value, depth int) bool
+		viaString = func(v ssa.Value, depth int) bool {
 			for i := 0; i < 4; i++ {
 				v = stripConv(v)
 				switch x := v.(type) {
@@ -535,7 +572,21 @@ var ruleMarshal = &Rule{
 					v = x.X
 					continue
 				case *ssa.Call:
-					return x.Call.StaticCallee() == str
+					sc := x.Call.StaticCallee()
+					if sc == str {
+						return true
+					}
+					if sc == nil || depth > 2 || fnPkgPath(sc) != pkgPath || sc.Blocks == nil || sc.Signature.Results().Len() != 1 ||
+						sc.Signature.Recv() == nil || len(x.Call.Args) != 1 || len(x.Parent().Params) == 0 || x.Call.Args[0] != ssa.Value(x.Parent().Params[0]) {
+						return false
+					}
+					rets := returnsOf(sc)
+					for _, r := range rets {
+						if !viaString(r.Results[0], depth+1) {
+							return false
+						}
+					}
+					return len(rets) > 0
 				}
 				break
 			}
